@@ -67,6 +67,7 @@ theorem buildRec_step {s : Stack} {i : Nat} {cmd : Cmd} (h : s[i]? = some cmd) (
       (match Ops.isTerminal cmd.node, Ops.isArity2 cmd.node with
       | some true, some _ =>
         if cmd.node = CONSTANT then pure (term cmd.node (i : Int) np)
+        else if cmd.node = INTEGER then pure (term cmd.node cmd.p1 false)
         else pure (term cmd.node cmd.p1 true)
       | some false, some arity2 => do
         let a ← buildExpressionRec s fuel cmd.p1 true
@@ -112,7 +113,7 @@ theorem buildRec_spec {D L : Nat} {s : Stack} (hwf : WF.WFEval D L s) :
       by_cases hv : cmd.node = VARIABLE
       · rw [if_pos hv] at hrow
         simp only [Bool.and_eq_true, decide_eq_true_eq] at hrow
-        rw [if_neg (by rw [hv]; decide)]
+        rw [if_neg (by rw [hv]; decide), if_neg (by rw [hv]; decide)]
         refine ⟨_, rfl, fun _ => ?_, ?_⟩
         · rw [Ok_term]; right
           simp [termsOf, varsBelow, hv, hrow.1, hrow.2]
@@ -135,6 +136,7 @@ theorem buildRec_spec {D L : Nat} {s : Stack} (hwf : WF.WFEval D L s) :
             rw [if_neg (by decide), if_neg (by decide), if_pos rfl, this]; exact hden
         · rw [if_neg hc] at hrow ⊢
           have hI : cmd.node = INTEGER := by simpa using hrow
+          rw [if_pos hI]
           refine ⟨_, rfl, fun _ => ?_, ?_⟩
           · rw [Ok_term]; exact .inl hI
           · intro x c cv v hx hcv hden
